@@ -158,7 +158,9 @@ def run_c10(case, tmp):
         o['wb'] = WB.get(w, 1)
         o['fd_len'] = len(raw) if raw is not None else 0
         tb = data[lay['off'] - 32 * n: lay['off']]
-        o['table'] = [list(struct.unpack('<QQQQ', tb[32 * i: 32 * i + 32])) for i in range(n)]
+        # only the entries that are completely in the file (a Reader that accepts a file whose table is cut short is
+        #  judged by the check, not by a crash here)
+        o['table'] = [list(struct.unpack('<QQQQ', tb[32 * i: 32 * i + 32])) for i in range(min(n, len(tb) // 32, 1 << 16))]
         o['pool'] = len(raw) // WB[w] if raw is not None and w in WB else 0
         o['memsize'] = len(o['read']['mem'])
     if case.get('run'):
